@@ -619,7 +619,12 @@ def run(fx, crates=None, cfgname="A"):
     for f, bi, t, kind in sites:
         o = callee_orig(t) or callee_path(t) or "<indirect>"
         fo = f
-        f = _view(fx, f)           # same block/local indices, workspace helpers inlined
+        import expand
+        if expand.expanded(fx, fo).blocks[bi]["term"].get("expanded"):
+            # an expanded combinator is plumbing: what happens to the error it forwards is followed from the call
+            # that produced the error (its receiver), through the expansion
+            continue
+        f = _view(fx, f)           # same local indices, workspace helpers and closures inlined, variants threaded
         _current.update(prim=o, term=t, fn=fo)
         ordk = (f.path, o)
         ordinal = counters.get(ordk, 0)
